@@ -49,6 +49,11 @@ theorem skel_handleWS_shape :
   "    return",
   "lbl := pprof.Labels(\"jrpc-mode\", \"wsserver\", \"jrpc-remote\", r.RemoteAddr, \"jrpc-uuid\", uuid.New().String())",
   "pprof.Do(ctx, lbl, func{…})",
+  "  go func{…}()",
+  "    select",
+  "      case <-ctx.Done()",
+  "        _ = c.Close()",
+  "      case <-wc.exiting",
   "  wc.handleWsConn(ctx)",
   "if err := c.Close(); err != nil",
   "  return"] := rfl
